@@ -615,6 +615,19 @@ class _Tr:
             a = self.block(s.body, tail, env, ind + 1)
             b = self.block(s.orelse, tail, env, ind + 1)
             return pad + f'if {self.truth(c, tc)} then\n{a}\n{pad}else\n{b}'
+        if isinstance(s, ast.Try) and not s.finalbody and not s.orelse:
+            # `try: body except E: <only logging>`: what the handlers do has no effect on what is modelled, and the
+            # exceptions themselves (a dead API process, a closed socket) are events of the model, not of the kernel:
+            # the body is translated as it runs when nothing is raised
+            for h in s.handlers:
+                for hs in h.body:
+                    src = ast.unparse(hs)
+                    ok = isinstance(hs, ast.Pass) or any(src.startswith(p) for p in sp.skip_prefixes)
+                    if isinstance(hs, ast.Expr) and isinstance(hs.value, ast.Call):
+                        ok = ok or any((_dotted(hs.value.func) or '').startswith(p) for p in sp.ignore_calls)
+                    if not ok:
+                        raise Unsupported(f'{self.fname}: an exception handler that does something: {src[:60]}')
+            return self.block(list(s.body) + tail, [], env, ind)
         raise Unsupported(f'statement {type(s).__name__}: {ast.unparse(s)[:80]}')
 
     def self_call(self, c: ast.Call) -> 'Translated | None':
